@@ -7,6 +7,33 @@ HERE = os.path.dirname(os.path.dirname(os.path.abspath(__file__)))
 
 # id -> (category, technique, text, note, design_ref)
 CHECKS = {
+    "C09": (
+        "exploration",
+        "bounded exhaustive enumeration of (adapter list, times, action, read) at the AdapterCutter seam against the stated combination rules",
+        "Every ordered list of 1-2 adapters (thorough: plus a quarter of all ordered triples) from a 17-entry menu - every adapter type, "
+        "near-duplicates that tie on score, two adapters with the same name, five linked adapters covering every required/optional "
+        "combination - x --times {1,2,3} x actions {trim,none,lowercase,mask,retain,crop} x ALL reads over ACGT up to length 6 (7) with "
+        "position-unique qualities, index disabled; 1.9e7 modifier calls in the quick tier. The reference takes each adapter's own "
+        "match_to and applies: highest score, then fewer errors, then first given; one removal per round on the already trimmed read; "
+        "non-trim actions once on the original read over the union of removed parts; linked: 3' part searched in the remainder after the "
+        "5' part, untouched and untrimmed when a required part is missing. A cli.main pass (--no-index, --rename {adapter_name}) binds "
+        "the seam to the command line.",
+        "Trusted: single-adapter match_to (C01/C02). mask/crop with linked adapters are documented as unsupported and not enumerated.",
+        "DESIGN.md section 3, C09",
+    ),
+    "C16": (
+        "exploration",
+        "bounded exhaustive enumeration of (adapter list, rate, times, action, read / read pair) at the ReverseComplementer seams against the strict-improvement rule",
+        "Adapter lists from a 10-entry menu (all types incl. linked) x (error rate, min overlap) in {(0.34,2),(0.7,2),(0.7,5),(0,3)} so "
+        "that negative scores and ties occur x --times {1,2} x every action x ALL reads over ACGT up to length 6 (7) for the single-end "
+        "stage; all pairs from a 40-read menu with cutters on {both, R1 only, R2 only} for the paired stage. Oracle: run the real "
+        "adapter-trimming stage on the given orientation and on the reverse complement (swapped pair); the result must be the given "
+        "orientation unless the other one has a match AND a strictly higher total score; then name suffix, is_rc flag, recorded matches "
+        "and counters must describe the chosen orientation. A cli.main pass checks ' rc', --rename {rc}, a later stage (--length) and the "
+        "reverse-complemented figure of the JSON report.",
+        "Trusted: the adapter-trimming stage without --revcomp (C09).",
+        "DESIGN.md section 3, C16",
+    ),
     "C15": (
         "exploration",
         "bounded exhaustive enumeration of demultiplexing configurations x reads with 0/1/2 adapter matches through cli.main; differential against the run without demultiplexing; 2-core runs under the virtual scheduler",
